@@ -421,6 +421,8 @@ func runC11(c *Ctx) {
 
 	// ---------- R6 / R7 ownership of handler objects ----------
 	checkOwnership(c)
+	checkCloseIsBarrier(c, "R10")
+	checkContextCancelledBeforeJoin(c, "R11")
 
 	// ---------- R8 transfer error, contexts ----------
 	{
@@ -827,4 +829,115 @@ func requestOwned(p *Program, v ssa.Value, at ssa.Instruction, depth int) (bool,
 		}
 	}
 	return false, "the Request at " + p.Pos(at.Pos()) + " in " + fnName(fn) + " is neither in the handle table nor closed by its creator"
+}
+
+// checkCloseIsBarrier (C11.R10): the dispatcher hands reads and writes to parallel workers.  A read or write that
+// arrives after a CLOSE of its handle must find the handle gone, so the dispatcher has to wait for the CLOSE itself
+// (not only for the requests before it, which is C14) before it takes the next packet: on every path from the
+// hand-off of a CLOSE to the next receive there is a working.Wait().
+func checkCloseIsBarrier(c *Ctx, rule string) {
+	p := c.P
+	d := getDispatcher(c, rule)
+	if d == nil || d.pktVal == nil {
+		return
+	}
+	cl := p.NamedType(p.Sftp, "sshFxpClosePacket")
+	if cl == nil {
+		c.missing(rule, "sshFxpClosePacket")
+		return
+	}
+	head := switchHead(d.disp, d.pktVal)
+	body, isDefault, _ := simulate(head, newPtr(cl))
+	if body == nil || isDefault {
+		c.bad(rule, "CLOSE is a barrier for what follows it", p.Pos(d.disp.Pos()), "the dispatcher has no case for CLOSE")
+		return
+	}
+	loops := rangeChanLoops(d.disp)
+	if len(loops) != 1 {
+		c.und(rule, "CLOSE is a barrier for what follows it", p.Pos(d.disp.Pos()), "dispatcher loop not found")
+		return
+	}
+	l := loops[0]
+	isHead := isLoopHeadStart(l)
+	isWait := func(in ssa.Instruction) bool {
+		cc := callOf(in)
+		return cc != nil && isWGCall(cc, "Wait")
+	}
+	n := 0
+	good := true
+	var where ssa.Instruction
+	for _, s := range d.sends {
+		s := s
+		if !reachFromBlock(body, func(in ssa.Instruction) bool { return in == ssa.Instruction(s) }, isHead) {
+			continue
+		}
+		n++
+		if reachAvoiding(d.disp, s, isHead, isWait) {
+			good = false
+			where = s
+		}
+	}
+	if n == 0 {
+		c.bad(rule, "CLOSE is a barrier for what follows it", p.Pos(body.Instrs[0].Pos()), "a CLOSE is never handed to a worker")
+		return
+	}
+	pos := p.Pos(body.Instrs[0].Pos())
+	if where != nil {
+		pos = p.Pos(where.Pos())
+	}
+	c.check(good, rule, "CLOSE is a barrier for what follows it", pos, "working.Wait() between the hand-off of a CLOSE and the next packet",
+		"after handing a CLOSE to the command worker the dispatcher goes on: a READ or WRITE of the same handle sent right after the CLOSE runs on a parallel worker while (or before) the handle is closed — it is served although the CLOSE was acknowledged, and can touch the closed object")
+}
+
+// checkContextCancelledBeforeJoin (C11.R11): the context given to the handlers ends with the session.  Handlers may
+// block on it, and Serve joins the workers that run them, so the cancellation must come before the join — a deferred
+// cancel alone runs only after wg.Wait() has returned.
+func checkContextCancelledBeforeJoin(c *Ctx, rule string) {
+	p := c.P
+	fn := p.Func("(*RequestServer).Serve")
+	if fn == nil {
+		c.missing(rule, "(*RequestServer).Serve")
+		return
+	}
+	var cancelV ssa.Value
+	eachInstr(fn, func(in ssa.Instruction) {
+		if call, ok := in.(*ssa.Call); ok && callIs(&call.Call, "context.WithCancel") {
+			for _, r := range *call.Referrers() {
+				if ex, ok := r.(*ssa.Extract); ok && ex.Index == 1 {
+					cancelV = ex
+				}
+			}
+		}
+	})
+	if cancelV == nil {
+		c.und(rule, "session context", p.Pos(fn.Pos()), "Serve does not create a cancellable context")
+		return
+	}
+	isCancel := func(in ssa.Instruction) bool {
+		call, ok := in.(*ssa.Call)
+		if !ok {
+			return false
+		}
+		for _, l := range leavesOf(call.Call.Value) {
+			if l.V == cancelV {
+				return true
+			}
+		}
+		return call.Call.Value == cancelV
+	}
+	n := 0
+	eachInstr(fn, func(in ssa.Instruction) {
+		cc := callOf(in)
+		if cc == nil || !isWGCall(cc, "Wait") {
+			return
+		}
+		if _, plain := in.(*ssa.Call); !plain {
+			return
+		}
+		n++
+		before := !reachAvoiding(fn, nil, func(x ssa.Instruction) bool { return x == in }, isCancel)
+		c.check(before, rule, "context cancelled before the workers are joined", p.Pos(in.Pos()), "cancel() on every path to wg.Wait()",
+			"the session context is cancelled only by the deferred call, after wg.Wait(): a handler that waits on Request.Context() (documented to end when the connection closes) is never released and Serve blocks in the join")
+	})
+	c.check(n == 1, rule, "RequestServer.Serve join", p.Pos(fn.Pos()), "one wg.Wait()", fmt.Sprintf("%d wg.Wait() calls", n))
 }
